@@ -149,8 +149,17 @@ func exec(op string) (string, string) {
 	}
 	cancel()
 	<-done
-	deadline := time.Now().Add(5 * time.Second)
-	for runtime.NumGoroutine() > base && time.Now().Before(deadline) {
+	// Wait until every callback goroutine the watcher spawned has run: a spawned goroutine (even one
+	// that has not been scheduled yet) shows up in the all-goroutines stack dump with the watcher
+	// as its creator. (Comparing runtime.NumGoroutine with a baseline is racy across cases.)
+	_ = base
+	deadline := time.Now().Add(10 * time.Second)
+	buf := make([]byte, 1<<20)
+	for time.Now().Before(deadline) {
+		n := runtime.Stack(buf, true)
+		if !strings.Contains(string(buf[:n]), "watchCoordinationWindows") {
+			break
+		}
 		time.Sleep(200 * time.Microsecond)
 	}
 	mu.Lock()
